@@ -158,6 +158,17 @@ func ParseExpression(str string, collation sql.CollationID) []int32 {
 // indexes anyway, we discard the match expressions and return only their indexes.
 func Match(matchExprCollection []MatchExpression, str string, collation sql.CollationID) []uint32 {
 	sortFunc := collation.Sorter()
+	if len(str) == 0 {
+		// There is no first rune to test. An empty string is matched by exactly
+		// the expressions that have nothing left to match (empty, or a lone '%').
+		validMatches := indexPool.Get().([]uint32)[:0]
+		for _, testExpr := range matchExprCollection {
+			if testExpr.IsAtEnd() {
+				validMatches = append(validMatches, testExpr.CollectionIndex)
+			}
+		}
+		return validMatches
+	}
 	// Grab the first rune and also remove it from the string
 	r, rSize := utf8.DecodeRuneInString(str)
 	str = str[rSize:]
